@@ -563,6 +563,68 @@ fn refused_at_checkout_then_idle(seed: u64, rep: &Report) -> Result<(), String> 
     Ok(())
 }
 
+/// Session mode: a client keeps its server for the whole session; its transactions (every protocol)
+/// are still counted once each in SHOW STATS / CLIENTS / SERVERS.
+fn session_mode_totals(seed: u64, rep: &Report) -> Result<(), String> {
+    let mut rng = Rng::new(seed);
+    let (mut cell, cfg) = simple_cell(&["primary"], 2, "session");
+    cell.start_pgcat(&cfg, &StartOpts::default()).map_err(|e| format!("start: {:?}", e))?;
+    let mut c = connect(&cell, "sm").map_err(|e| e.to_string())?;
+    let mut gen = GenOpts::default();
+    gen.sleep_max_ms = 1;
+    let n = rng.range(6, 20);
+    let mut kinds = BTreeSet::new();
+    for t in 0..n {
+        let (kind, steps) = gen_txn(&mut rng, "sm", t as usize, &gen);
+        let r = run_txn(&mut c, &kind, &steps, 10_000);
+        if r.steps.iter().any(|s| matches!(s.outcome, crate::wl::Outcome::Eof | crate::wl::Outcome::Timeout | crate::wl::Outcome::Io(_))) {
+            return Err(format!("session-mode client lost its connection in a {} transaction", kind));
+        }
+        kinds.insert(kind);
+    }
+    sleep_ms(150);
+    let mut adm = cell.pg().admin().map_err(|e| format!("admin: {}", e))?;
+    let st = admin_rows(&mut adm, "SHOW STATS")?;
+    let row = st.iter().find(|r| r.get("database").map(|d| d == "db").unwrap_or(false)).or(st.first()).ok_or("SHOW STATS empty")?;
+    let xacts = cell.mocks[0].ctl.client_xacts.load(Ordering::SeqCst) as i64;
+    let reqs = cell.mocks[0].ctl.client_requests.load(Ordering::SeqCst) as i64;
+    rep.count("session_mode_totals_compared", 1);
+    for k in &kinds {
+        rep.set_add("session_mode_transaction_kinds", k);
+    }
+    let got_x = num(row, "total_xact_count");
+    if got_x != xacts {
+        rep.violation(
+            &format!("C18|total_xact_count_differs|sign={}|mode=session", if got_x > xacts { "over" } else { "under" }),
+            &format!("session mode, one client, transaction kinds {:?}: SHOW STATS total_xact_count={} but the backend completed {} client transactions", kinds, got_x, xacts),
+            json!({"seed": seed, "kinds": kinds}),
+        );
+    }
+    let got_q = num(row, "total_query_count");
+    if got_q != reqs {
+        rep.violation(
+            &format!("C18|total_query_count_differs|sign={}|mode=session", if got_q > reqs { "over" } else { "under" }),
+            &format!("session mode, one client, transaction kinds {:?}: SHOW STATS total_query_count={} but the backend completed {} client requests", kinds, got_q, reqs),
+            json!({"seed": seed, "kinds": kinds}),
+        );
+    }
+    // the client's own row
+    for r in admin_rows(&mut adm, "SHOW CLIENTS")? {
+        if r.get("application_name").map(|a| a == "sm").unwrap_or(false) {
+            let tc = num(&r, "transaction_count");
+            if tc != xacts {
+                rep.violation(
+                    &format!("C18|client_transaction_count_differs|sign={}|mode=session", if tc > xacts { "over" } else { "under" }),
+                    &format!("session mode: SHOW CLIENTS transaction_count={} for the only client, the backend completed {} client transactions ({:?})", tc, xacts, kinds),
+                    json!({"seed": seed}),
+                );
+            }
+        }
+    }
+    c.terminate();
+    Ok(())
+}
+
 pub fn run(tier: &str) -> i32 {
     let rep = Report::new(
         "C18",
@@ -585,6 +647,8 @@ pub fn run(tier: &str) -> i32 {
             failed_server_logins(seeds[i - n_long], &rep)
         } else if (i - n_long) % 8 == 6 {
             refused_at_checkout_then_idle(seeds[i - n_long], &rep)
+        } else if (i - n_long) % 8 == 3 {
+            session_mode_totals(seeds[i - n_long], &rep)
         } else {
             scenario(seeds[i - n_long], &rep)
         };
